@@ -9,3 +9,55 @@ package hc
 //@ func (t *ipTransport) Start()
 //@   requires t != nil && t.config != nil
 //@   modifies heap
+
+// ---- C20: setup codes
+// ValidatePin accepts exactly the 8-digit decimal codes that are not one of the 12 trivial codes, and formats XXX-XX-XXX.
+//@ pred isDigits8(pin) = len(pin) == 8 && forall(i, 0, 8, '0' <= pin[i] && pin[i] <= '9')
+//@ pred trivialPin(pin) = pin == "12345678" || pin == "87654321" || pin == "00000000" || pin == "11111111" || pin == "22222222" || pin == "33333333" || pin == "44444444" || pin == "55555555" || pin == "66666666" || pin == "77777777" || pin == "88888888" || pin == "99999999"
+//@ func ValidatePin(pin) (fmtPin, err)
+//@   requires invalidPinsOK()
+//@   pure
+//@   ensures accepts: (err == nil) == (isDigits8(pin) && !trivialPin(pin))
+//@   loop 0
+//@     invariant idx: 0 <= loopidx && loopidx <= len(invalidPins)
+//@     invariant none: forall(i, 0, loopidx, invalidPins[i] != pin)
+//@     invariant list: invalidPinsOK()
+//@   loop 1
+//@     invariant idx: 0 <= loopidx && loopidx <= len(bs)
+//@     invariant digits: forall(i, 0, loopidx, '0' <= bs[i] && bs[i] <= '9')
+//@     invariant bytes: len(bs) == len(pin) && len(pin) == 8 && forall(j, 0, 8, bs[j] == pin[j])
+// the package-level list is initialised with the 12 literals and assigned nowhere else (global invariant, writer scan)
+//@ pred invalidPinsOK() = len(invalidPins) == 12 && invalidPins[0] == "12345678" && invalidPins[1] == "87654321" && invalidPins[2] == "00000000" && invalidPins[3] == "11111111" && invalidPins[4] == "22222222" && invalidPins[5] == "33333333" && invalidPins[6] == "44444444" && invalidPins[7] == "55555555" && invalidPins[8] == "66666666" && invalidPins[9] == "77777777" && invalidPins[10] == "88888888" && invalidPins[11] == "99999999"
+
+// ---- C20: configuration number and discoverability
+// The configuration number increases exactly when a previous hash exists and the new structural hash differs from it.
+//@ func (cfg *Config) updateConfigHash(hash)
+//@   requires cfg != nil && hash != nil
+//@   modifies cfg.version, cfg.configHash
+//@   ensures bump: cfg.version == ite(old(cfg.configHash) != nil && old(seq(cfg.configHash)) != old(seq(hash)), old(cfg.version) + 1, old(cfg.version)) || (old(cfg.version) == 9223372036854775807)
+//@   ensures hash: cfg.configHash == hash
+
+// paired iff the pairing store holds more than the accessory's own entity; on a store error: not paired
+//@ func (t *ipTransport) isPaired() (p)
+//@   requires t != nil && t.database != nil
+//@   pure
+//@   ensures p ==> dbcount(t.database) > 1
+
+//@ func (t *ipTransport) updateMDNSReachability()
+//@   requires t != nil && t.database != nil && t.config != nil
+//@   modifies heap
+
+// ---- C20: identity persists: what save wrote is what load reads back (per key; the store is the ghost map stval)
+//@ func (cfg *Config) load(storage)
+//@   requires cfg != nil && storage != nil
+//@   modifies cfg.id, cfg.version, cfg.configHash
+//@   ensures id: cfg.id == ite(stex(storage, "uuid") && len(stval(storage, "uuid")) > 0, tostr(stval(storage, "uuid")), old(cfg.id))
+//@   ensures hash: stex(storage, "configHash") && len(stval(storage, "configHash")) > 0 ==> seq(cfg.configHash) == stval(storage, "configHash")
+//@   ensures hashKeep: !(stex(storage, "configHash") && len(stval(storage, "configHash")) > 0) ==> unchanged(cfg.configHash)
+//@   ensures versionKeep: !(stex(storage, "version") && len(stval(storage, "version")) > 0) ==> unchanged(cfg.version)
+
+//@ func (cfg *Config) save(storage)
+//@   requires cfg != nil && storage != nil
+//@   modifies stex(storage, "uuid"), stval(storage, "uuid"), stex(storage, "version"), stval(storage, "version"), stex(storage, "configHash"), stval(storage, "configHash")
+//@   ensures id: (stex(storage, "uuid") && stval(storage, "uuid") == seq(cfg.id)) || (stex(storage, "uuid") == old(stex(storage, "uuid")) && stval(storage, "uuid") == old(stval(storage, "uuid")))
+//@   ensures hash: (stex(storage, "configHash") && stval(storage, "configHash") == seq(cfg.configHash)) || (stex(storage, "configHash") == old(stex(storage, "configHash")) && stval(storage, "configHash") == old(stval(storage, "configHash")))
